@@ -92,7 +92,12 @@ func cmdLalr(f []string) string {
 		if T != nil {
 			return "CONFLICT+TABLE " + head + " msg=" + hx(err.Error())
 		}
-		return "CONFLICT " + head + " msg=" + hx(err.Error())
+		// does the dependency's construction, called directly with the spec's grammar and precedence levels, agree?
+		direct := "conflict"
+		if T2, err2 := lookahead.BuildParsingTable(s.Grammar, s.Precedences); err2 == nil && T2 != nil {
+			direct = "ok"
+		}
+		return "CONFLICT " + head + " msg=" + hx(err.Error()) + " direct=" + direct
 	}
 	if T == nil {
 		return "NILNIL"
